@@ -55,6 +55,15 @@ CLAIMED = {
  "C16": dict(cat="other", tech="typestate by value numbering with gen_entropy as an opaque state-threading call; who-writes query; loop record of the rounds loop; bounded evaluation of rand_core's fill_bytes_via_next for constant lengths",
    text="next_u32/next_u64/clone bookkeeping of the pending half is decided exactly; gen_entropy's rounds loop runs 0..rounds with at least one timer read per round; fill_bytes lengths 1..=12 (24 thorough) are evaluated; one known finding (fill_bytes of 1..=4 bytes consumes a pending half by design) is listed in known_findings.json.",
    note=TB, ref="4/C16"),
+ "C02": dict(cat="other", tech="value numbering of generate for each of the 64 counter residues (counter = 1024q+16k, q symbolic) and of init on symbolic key/IV words; normal-form identity with the transcription of Wu's specification, look-ups as select terms",
+   text="Every 16-word block, from every table state and every residue of the step counter, equals the specification's 16 keystream steps (results, table update, counter); the initial table equals the specification's expansion plus 1024 feedback steps for every key/IV (all 1024 words); from_seed decodes eight LE words.",
+   note=TB + "; whole-keystream equality is the induction over blocks (BlockRng hands words out in order: dependency); sums above 48 monomials are canonical only up to association (DESIGN.md section 7)", ref="4/C02"),
+ "C03": dict(cat="other", tech="value numbering of generate / init / from_seed / seed_from_u64 of both cores on symbolic state (256-word symbolic memory, data-dependent look-ups as select terms); normal-form identity with the transcription of rand.c / isaac64.c",
+   text="One refill block from an arbitrary symbolic state equals one reference isaac()/isaac64() call in all 256 memory words, a, b, c and all 256 result slots (slot 255-i = i-th word); init equals randinit (constants re-derived from the golden ratio by the reference mixer); from_seed and seed_from_u64 equal randinit(TRUE)/one pass on the documented key layout.",
+   note=TB + "; whole-stream equality is the induction over blocks; BlockRng/BlockRng64 order is the dependency's", ref="4/C03"),
+ "C09": dict(cat="other", tech="value numbering of the seeding routes with rand_core's default from_rng and fill_bytes_via_next inlined for the constant seed length; identity with from_seed on the reference SplitMix64 byte stream; impl-table queries; sibling comparison of from_rng / try_from_rng; loop records of the redraw loops",
+   text="xoshiro seed_from_u64(x) = from_seed(LE bytes of the reference SplitMix64 stream at x) for all 14 types; non-overriding impls and wrapper delegation are decided from the impl tables and call atoms; ISAAC seed_from_u64 / from_rng / try_from_rng key layout, byte counts, pass counts and error discipline; XorShiftRng redraw loops leave only with a non-zero block (or the source's error).",
+   note=TB + "; rand_core's PCG32 seed_from_u64 default is the dependency's", ref="4/C09"),
 }
 
 checks = []
